@@ -108,12 +108,12 @@ def plot_burst_detect_summary(df_features, sig, fs, threshold_kwargs, xlim=None,
     # Determine which samples are defined as bursting
     is_osc = np.zeros(len(sig), dtype=bool)
     df_osc = df_features.loc[df_features['is_burst']]
-    start = 0 if xlim is None else xlim[0]
+    samp_first = 0 if xlim is None or len(times) == 0 else int(np.round(times[0] * fs))
 
     for cyc in df_osc.to_dict('records'):
 
-        samp_start_burst = int(cyc['sample_last_' + side_e]) - int(fs * start)
-        samp_end_burst = int(cyc['sample_next_' + side_e] + 1) - int(fs * start)
+        samp_start_burst = int(cyc['sample_last_' + side_e]) - samp_first
+        samp_end_burst = int(cyc['sample_next_' + side_e] + 1) - samp_first
 
         is_osc[samp_start_burst:samp_end_burst] = True
 
@@ -139,8 +139,8 @@ def plot_burst_detect_summary(df_features, sig, fs, threshold_kwargs, xlim=None,
         # Highlight where a burst param falls below threshold
         for cyc in df_features.to_dict('records'):
 
-            last_cyc = int(cyc['sample_last_' + side_e]) - int(fs * start)
-            next_cyc = int(cyc['sample_next_' + side_e]) - int(fs * start)
+            last_cyc = int(cyc['sample_last_' + side_e]) - samp_first
+            next_cyc = int(cyc['sample_next_' + side_e]) - samp_first
             if cyc[column] < threshold_kwargs[osc_key] and last_cyc > 0:
                 axes[0].axvspan(times[last_cyc], times[min(next_cyc, len(times) - 1)],
                  alpha=0.5, color=color, lw=0)
